@@ -6,17 +6,17 @@ T_SIM = "stateless deviation-bounded exhaustive exploration of command sequences
 TRUST = "Trusted: Python semantics, the reference models in mc/refmodel.py (transcribed from README/property text), exact-arithmetic alphabets (dyadic values) for lock-step comparison. Bounded: <=4 pipelines, <=4 operators, <=3 pools, horizons <=40 ticks."
 CHECKS = [
     dict(property_id="C02",
-         technique="explicit-state BFS to fixpoint over the real lifecycle object + bounded-depth stateless enumeration of request sequences; transition-log monitors on exhaustively enumerated simulations",
-         text="Complete reachable state space of the real PipelineRuntimeStatus for all 11 DAGs on <=3 operators with every request in every state, all request sequences to depth 3/4 without state merging, and every transition of every enumerated simulation checked against the documented table.",
+         technique="explicit-state BFS to fixpoint over the real lifecycle object (visible-state key, and a history-sensitive key: per operator the set of state changes made so far) + bounded-depth stateless enumeration of request sequences; transition-log monitors on exhaustively enumerated simulations",
+         text="Complete reachable state space of the real PipelineRuntimeStatus for all 11 DAGs on <=3 operators with every request in every state, the same search with states separated by what each operator has been through (so hidden memory in the object cannot hide behind merging), all request sequences to depth 3/4 without state merging, and every transition of every enumerated simulation checked against the documented table.",
          note="Trusted: Python semantics; the documented table as transcribed in mc/refmodel.py LIFECYCLE. Bounded to DAGs of <=3 operators for the object-level search."),
     dict(property_id="C03", technique=T_SIM,
          text="Every command sequence with <=2 (quick) / <=3 (thorough) deviations from a default policy over 6-10 ticks on 1-2 pools, every suspension placement (F2) and every 2-4 container memory mix (F3): conservation equation, non-negativity, ledger-predicted live set and batch atomicity checked after every executor tick.",
          note=TRUST),
     dict(property_id="C04", technique=T_SIM,
-         text="All ordered 2-4 container mixes of fixed/growing/zero-memory profiles x allocations x offsets with and without overcommit, plus F1/F2 executions: per-tick limits, truthful reported usage, and every kill justified by model-predicted demand.",
+         text="All ordered 2-4 container mixes of fixed/growing/zero-memory profiles x allocations x offsets with and without overcommit, plus F1/F2 executions (F2 with a consequence probe: the pool is filled as a scheduler would, trusting its own free figures): per-tick limits, truthful reported usage, and every kill justified by model-predicted demand.",
          note=TRUST),
-    dict(property_id="C05", technique="exhaustive enumeration of an operator-list x cpus x ram x tick-rate alphabet on the real container, matched tick-by-tick against all admissible timelines of an exact-rational model (NFA-style)",
-         text="~46k (quick) / ~1M (thorough) container runs covering zero/sub-tick/1/2.5-tick I/O and CPU phases, all seven scaling laws, memory unset/0/small/over, allocations below/just below/at/above the peak and tick rates 1..100000; float-boundary cases accept either side as the property allows.",
+    dict(property_id="C05", technique="exhaustive enumeration of an operator-list x cpus x ram x tick-rate alphabet on the real container, matched tick-by-tick against all admissible timelines of an exact-rational model (NFA-style); the memory-mix family (2-5 containers per pool) in lock-step with the reference executor",
+         text="~46k (quick) / ~1M (thorough) container runs covering zero/sub-tick/1/2.5-tick I/O and CPU phases, all seven scaling laws, memory unset/0/small/over, allocations below/just below/at/above the peak and tick rates 1..100000; float-boundary cases accept either side as the property allows; plus all 2-5 container memory mixes (neighbours finishing / created / killed in the tick a demand jumps).",
          note="Trusted: the timeline model (mc/refmodel.py); log/sqrt laws evaluated in floats with a 1e-9 relative boundary band."),
     dict(property_id="C09", technique=T_SIM,
          text="Same executions as C03: one container per accepted assignment in the named pool, at most one result per container in the tick it leaves, success iff all operators completed, failure shape completed* failed+, unknown pools rejected, counts identity via the reference ledger.",
@@ -44,7 +44,7 @@ CHECKS += [
          text="priority on 12-20 pool configurations (1-CPU pools so that preemption happens, write-outs of 1-8 ticks) and priority-pool: per round - no lower class assigned while a higher-class ready pending operator waits, FIFO of first containers per class, work conservation, suspension only of running non-query containers at a model-confirmed boundary while query work waits, at most one per waiting query job; resumed work is offered again (via work conservation).",
          note=TRUST + " FAILED operators are outside the order/conservation clauses (the statement says pending)."),
     dict(property_id="C16", technique=T_F5,
-         text="priority-pool on two pools over all priority mixes/arrival patterns/DAG shapes with OOM->retry chains: pool 0 iff query/interactive, pool 1 iff batch for firsts and retries, never a suspension, retry = exactly the unfinished operators, doubled request reaching half of the pool is never assigned.",
+         text="priority-pool on two pools over all priority mixes/arrival patterns/DAG shapes with OOM->retry chains: pool 0 iff query/interactive, pool 1 iff batch for firsts and retries, never a suspension, retry = exactly the unfinished operators, doubled request reaching half of the pool is never assigned; isolation also as non-interference (every mixed scenario re-run without its batch pipelines: identical pool-0 decisions).",
          note=TRUST),
     dict(property_id="C17", technique=T_F5,
          text="naive on 1-3 pools, both container modes: <=1 container per pool per round with exactly the pool's free CPU/RAM, first containers in arrival order, never suspends, never assigns a pipeline with a failed operator, single ready operator per container when multi-operator containers are off.",
@@ -59,15 +59,15 @@ CHECKS += [
          text="All 64 (quick) / 512 (thorough) ordered histories over 8 configurations: every run's canonical tick-by-tick log and statistics equal the same configuration alone in a fresh interpreter; PYTHONHASHSEED 0..3/0..11 x {real uuid4 twice, ascending, descending, scrambled identifiers}; all 720 relative orders of a diamond pipeline's identifiers; generated workload identical across 48 scheduler/executor settings per seed and through run_simulator, all seed pairs differ.",
          note="Bounded enumerations of unbounded spaces (hash seeds, identifier values through their relative orders). Child interpreters cost ~0.8 s each."),
     dict(property_id="C13", technique="exhaustive enumeration of the (tick, tick-rate) grid through the real trace writer/reader/replayer with an exact rational oracle",
-         text="Every tick 0..2000 (quick) / 0..50000 (thorough) plus windows at 10^6 and 10^7 for ten tick rates (gentrace round trip), hand-written decimal arrivals on/off the grid with 0-3 pipelines per value, gaps and arrivals beyond the end for 13 tick rates, and the real gentrace CLI against a fresh generator: delivered exactly once, in the exact tick, in file order.",
+         text="Every tick 0..2000 (quick) / 0..50000 (thorough) plus windows at 10^6 and 10^7 for ten tick rates (gentrace round trip), hand-written decimal arrivals on/off the grid with 0-3 pipelines per value, gaps and arrivals beyond the end for 13 tick rates, the real gentrace CLI against a fresh generator, and `run` against `gentrace` + `run -w` through the real main loop for durations that are not whole numbers of ticks: delivered exactly once, in the exact tick, in file order, same run length.",
          note="Known finding F-C13-grid-arrival-one-tick-late (exact predicate evaluated by the checker) is reported as KNOWN-FINDING; anything else is a violation."),
     dict(property_id="C14", technique="exhaustive enumeration of all DAGs on <=5/6 nodes x value alphabets through the real writer and reader; every single-rule corruption of a valid file",
-         text="1 099 (quick) / 33 867 (thorough) DAG shapes with cycled value alphabets (0, 1, 15, 0.1, 37.5, 1e-9, 1e9, 1/3; 7 laws; memory unset/0/0.5), 1-3 pipelines per arrival, plus the full per-field product on a single operator: write->read structure equality, read->write row equality; 24 corrupted files must be refused.",
+         text="1 099 (quick) / 33 867 (thorough) DAG shapes with cycled value alphabets (0, 1, 15, 0.1, 37.5, 1e-9, 1e9, 1/3; 7 laws; memory unset/0/0.5), 1-3 pipelines per arrival, the full per-field product on a single operator, and pairs of rows whose values differ only below 1e-9: write->read structure equality, read->write row equality; 24 corrupted files must be refused.",
          note="Values are cycled over DAGs, not the full product per DAG."),
     dict(property_id="C15", technique="the generator's RNG replaced by an enumerating environment: all answer sequences up to a deviation bound; exact discretised expectations over 256 quantiles; seed range",
-         text="All answer sequences with <=2/3 non-default answers (class choices, z in an 8-point grid) over 3 arrival events for num_pipelines 1-3 x num_operators 1,2,5 x waiting mean 0.4/3/50 ticks x probability triples with zeros; argument binding for all 66 triples; operator-count, gap and prototype-rank distributions computed exactly over 256 equiprobable quantiles for cpu_io_ratio 0..1; the real numpy generator for 64/2000 seeds.",
+         text="All answer sequences with <=2/3 non-default answers (class choices, z in a 10-point grid, every integer / unit-interval answer if the generator draws that way) over 3 arrival events for num_pipelines 1-3 x num_operators 1,2,5 x waiting mean 0.4/3/50 ticks x probability triples with zeros; argument binding for all 66 triples in tenths and 9 with a zero and non-whole-percent members; operator-count, gap and prototype-rank distributions computed exactly over 256 equiprobable quantiles for cpu_io_ratio 0..1; the real numpy generator for 64/2000 seeds.",
          note="Assumes numpy's normal/choice follow their arguments. Distribution clauses are decided over a discretised RNG."),
-    dict(property_id="C19", technique="stateless deviation-bounded exhaustive exploration of external decision sequences against the real run_simulator(rest) over an in-process JSON transport; ground-truth comparison at every call; in-process replay equivalence; loop-back HTTP conformance",
+    dict(property_id="C19", technique="stateless deviation-bounded exhaustive exploration of external decision sequences against the real run_simulator(rest) over an in-process JSON transport whose replies can be lost after processing; ground-truth comparison at every call; in-process replay equivalence; loop-back HTTP conformance",
          text="All reply sequences with <=2/3 non-default replies over <=10 calls for poll intervals 0/0.5/1/2.5, tick rates 1,(2),10, 1-2 pools, both container modes: every request equals ground truth (results, pools, containers, operator states), tainted segment figures never appear, new/other disjoint, completion reported once, call timing, decisions executed as given, statistics equal an in-process replay; six traces repeated over a real loop-back http.server.",
          note="The Go reference scheduler is not built or run (no Go toolchain in the image)."),
     dict(property_id="C20", technique="exhaustive enumeration of the (arrival, tick-rate) grid through the real snap tool with an exact Decimal oracle; jitter with numpy's generator replaced by an enumerating one (all answer sequences); in-process sensitivity-sample",
